@@ -41,60 +41,6 @@ def Logged (q : Req) (before after : List (Released σ)) : Out σ → Prop
   | .sig sg ts => ∃ st, q.step = some st ∧ after = before ++ [⟨⟨q.h, q.r, st⟩, q.body, ts, sg⟩]
   | _ => after = before
 
-/-! ### The guard that separates the safe histories from the finding
-
-`FileState.Update` overwrites the in-memory fields BEFORE `save`; when `save`
-fails (I/O error, or `validate` rejecting e.g. a negative round) the error is
-returned but memory keeps the new H/R/S, sign-bytes and signature, which the
-file does not hold.  A later request for that same H/R/S is then answered from
-memory by the same-HRS branch — which persists nothing.  `CleanReuse` says this
-does not happen: whenever a request is served by the same-HRS branch, memory is
-what the file holds. -/
-
-def CleanReuse (s : State σ) (q : Req) : Prop :=
-  ∀ st, q.step = some st → checkHRS s.mem ⟨q.h, q.r, st⟩ = .same → s.mem = s.disk
-
-/-- The request (if any) that the RUNNING process serves for this op (a `cut`
-request is served by a freshly started process, whose memory is the file). -/
-def servedReq (_s : State σ) : Op → Option Req
-  | .sign q => some q
-  | _ => none
-
-/-- Along the whole history, the same-HRS branch is only taken from a memory
-state equal to the persisted one. -/
-def NoDirtyReuse (sign : SignBytes → σ) : State σ → List Op → Prop
-  | _, [] => True
-  | s, op :: ops =>
-    (∀ q, servedReq s op = some q → CleanReuse s q) ∧ NoDirtyReuse sign (step sign s op).1 ops
-
-/-! Two operational conditions that imply the guard (proved in `Proofs/C34`). -/
-
-/-- The call reported a failed `save` (I/O or `validate`): memory ran ahead of the file. -/
-def Out.saveFailed : Out σ → Bool
-  | .err _ (some _) => true
-  | _ => false
-
-/-- The rest of the history is empty or begins with a restart. -/
-def restartsFirst : List Op → Bool
-  | [] => true
-  | .crash :: _ => true
-  | _ => false
-
-/-- Fail-stop: after a failed save nothing but a restart follows. -/
-def FailStop (sign : SignBytes → σ) : State σ → List Op → Prop
-  | _, [] => True
-  | s, op :: ops =>
-    ((step sign s op).2.saveFailed = true → restartsFirst ops = true) ∧
-    FailStop sign (step sign s op).1 ops
-
-def FailStop.dec (sign : SignBytes → σ) : (s : State σ) → (ops : List Op) → Decidable (FailStop sign s ops)
-  | _, [] => isTrue trivial
-  | s, op :: ops =>
-    @instDecidableAnd _ _ inferInstance (FailStop.dec sign (step sign s op).1 ops)
-
-instance (sign : SignBytes → σ) (s : State σ) (ops : List Op) : Decidable (FailStop sign s ops) :=
-  FailStop.dec sign s ops
-
 instance [DecidableEq σ] (l : List (Released σ)) : Decidable (NoConflict l) := by
   unfold NoConflict; exact inferInstance
 instance (l : List (Released σ)) : Decidable (Monotone l) := by
@@ -102,16 +48,10 @@ instance (l : List (Released σ)) : Decidable (Monotone l) := by
 instance (s : State σ) : Decidable (Persisted s) := by
   unfold Persisted; exact inferInstance
 
-/-- A request that `validate` cannot reject: non-negative height and round, step 1..3. -/
-def Req.wf (q : Req) : Bool :=
-  decide (0 ≤ q.h) && decide (0 ≤ q.r) &&
-  (match q.step with | none => true | some st => decide (1 ≤ st) && decide (st ≤ 3))
-
-/-- No environment failure is ever switched on and every request is well-formed. -/
-def Op.benign : Op → Bool
-  | .sign q => q.wf
-  | .cut _ q => q.wf
-  | .crash => true
-  | .failsave on => !on
+/-- The call reported a failed `save` (I/O or `validate`): an error although a
+signature had been produced (and assigned to the request object). -/
+def Out.saveFailed : Out σ → Bool
+  | .err _ (some _) => true
+  | _ => false
 
 end GnoVerif.C34
